@@ -14,6 +14,7 @@ import Driver.C03
 import Driver.Faults
 import Driver.Block
 import Driver.C18
+import Driver.CafW64
 open Sf
 
 def lawOf (s : String) : Option G711.Law :=
@@ -71,4 +72,6 @@ def main (args : List String) : IO UInt32 := do
   | "faults" :: rest => FaultsDriver.cmd rest
   | "block" :: rest => Driver.Block.cmd rest
   | "c18" :: rest => C18Driver.main rest
+  | "caf" :: rest => CafW64Driver.cafCmd rest
+  | "w64" :: rest => CafW64Driver.w64Cmd rest
   | _ => IO.eprintln "usage: sfmodel <g711|...> ..."; return 2
